@@ -44,6 +44,7 @@ package tracker
 //@   requires ctx != nil && tracker != nil && f != nil
 //@   callback f pure
 //@   modifies *
+//@   ensures  [lockkept] tracker.locked == old(tracker.locked)
 //@   loop 1
 //@     invariant 0 <= i && i%6 == 0 && i <= len(peers) && len(peers)%6 == 0
 //@   loop 3
@@ -58,4 +59,31 @@ package tracker
 //@   modifies *
 //@   loop 1
 //@     invariant cap(buf) == len+2 && (len == 4 || len == 16) && buf != nil
+//@   props    C15
+
+// The busy flag is never left set: whichever way an announce attempt or a
+// state poll ends (not ready, parse error, both families failing, success),
+// a flag that this call set is cleared again before it returns, and a call
+// that finds the flag set reports busy and leaves it alone.
+//@ func (*HTTP).Announce
+//@   requires tracker != nil && ctx != nil && f != nil
+//@   callback f pure
+//@   modifies *
+//@   ensures  [unlocked] old(tracker.locked) == 0 ==> tracker.locked == 0
+//@   ensures  [busy]     old(tracker.locked) != 0 ==> $r0 == ErrNotReady
+//@   props    C15
+
+//@ func (*UDP).Announce
+//@   requires tracker != nil && ctx != nil && f != nil
+//@   callback f pure
+//@   modifies *
+//@   ensures  [unlocked] old(tracker.locked) == 0 ==> tracker.locked == 0
+//@   ensures  [busy]     old(tracker.locked) != 0 ==> $r0 == ErrNotReady
+//@   props    C15
+
+//@ func (*base).GetState
+//@   requires tracker != nil
+//@   modifies tracker.locked
+//@   ensures  [unlocked] tracker.locked == old(tracker.locked)
+//@   ensures  [busy]     old(tracker.locked) != 0 ==> $r0 == Busy && $r1 == nil
 //@   props    C15
